@@ -180,6 +180,10 @@ type dsaAlgorithmParameters struct {
 
 type dsaSignature struct {
 	R, S *big.Int
+	// Extra catches anything that follows S inside the SEQUENCE: encoding/asn1
+	// silently ignores trailing elements of a SEQUENCE, which made
+	// SEQUENCE { r, s, junk... } verify like SEQUENCE { r, s }.
+	Extra asn1.RawValue `asn1:"optional"`
 }
 
 type ecdsaSignature dsaSignature
@@ -1111,6 +1115,9 @@ func CheckSignatureFromKey(publicKey interface{}, algo SignatureAlgorithm, signe
 		} else if len(rest) != 0 {
 			return errors.New("x509: trailing data after DSA signature")
 		}
+		if len(dsaSig.Extra.FullBytes) != 0 {
+			return errors.New("x509: trailing data inside DSA signature")
+		}
 		if dsaSig.R.Sign() <= 0 || dsaSig.S.Sign() <= 0 {
 			return errors.New("x509: DSA signature contained zero or negative values")
 		}
@@ -1125,6 +1132,9 @@ func CheckSignatureFromKey(publicKey interface{}, algo SignatureAlgorithm, signe
 		} else if len(rest) != 0 {
 			return errors.New("x509: trailing data after ECDSA signature")
 		}
+		if len(ecdsaSig.Extra.FullBytes) != 0 {
+			return errors.New("x509: trailing data inside ECDSA signature")
+		}
 		if ecdsaSig.R.Sign() <= 0 || ecdsaSig.S.Sign() <= 0 {
 			return errors.New("x509: ECDSA signature contained zero or negative values")
 		}
@@ -1138,6 +1148,9 @@ func CheckSignatureFromKey(publicKey interface{}, algo SignatureAlgorithm, signe
 			return err
 		} else if len(rest) != 0 {
 			return errors.New("x509: trailing data after ECDSA signature")
+		}
+		if len(ecdsaSig.Extra.FullBytes) != 0 {
+			return errors.New("x509: trailing data inside ECDSA signature")
 		}
 		if ecdsaSig.R.Sign() <= 0 || ecdsaSig.S.Sign() <= 0 {
 			return errors.New("x509: ECDSA signature contained zero or negative values")
